@@ -757,7 +757,11 @@ func (vc *VC) applyHint(c *Clause, env *Env, pc string) {
 	}()
 	switch c.Kind {
 	case "label":
-		vc.labels[strings.TrimSpace(c.Text)] = &stateLabel{st: env.st.clone(), blk: env.blk}
+		lv := map[string]SpecVal{}
+		for k, v := range env.vars {
+			lv[k] = v
+		}
+		vc.labels[strings.TrimSpace(c.Text)] = &stateLabel{st: env.st.clone(), blk: env.blk, vars: lv, local: env.local}
 	case "unfold":
 		if q, isQ := c.Expr.(SQuant); isQ && q.Forall {
 			call, ok := q.Body.(SCall)
@@ -1080,6 +1084,9 @@ func (vc *VC) dispatchCall(ifc *FuncContract, name string, actuals []SpecVal, re
 	var conds []string
 	for _, d := range ifc.Dispatch {
 		key := ifc.Pkg + "::" + d
+		if strings.Contains(d, "::") {
+			key = d // implementer in another package: full key
+		}
 		fn := vc.w.fnByKey[key]
 		if fn == nil {
 			specFail("dispatch: no function %s", key)
